@@ -1,12 +1,12 @@
 package bounds
 
 import (
-	"os"
 	"fmt"
 	"go/constant"
 	"go/token"
 	"go/types"
 	"math/big"
+	"os"
 	"sort"
 	"strings"
 
@@ -202,17 +202,17 @@ func (a *Analyzer) freshOf(st *State, t types.Type, prefix string) AVal {
 
 // inst is one function instance being analysed.
 type inst struct {
-	a      *Analyzer
-	fn     *ssa.Function
-	env    map[ssa.Value]AVal
-	depth  int
-	ctx    string
-	record bool
-	inv    map[*ssa.Phi][]string // surviving invariant templates per loop phi
-	rets   []retInfo
-	out    map[*ssa.BasicBlock]*State
-	params map[string]Lin // lengths of slice parameters (for templates)
-	loops  []*ir.Loop
+	a         *Analyzer
+	fn        *ssa.Function
+	env       map[ssa.Value]AVal
+	depth     int
+	ctx       string
+	record    bool
+	inv       map[*ssa.Phi][]string // surviving invariant templates per loop phi
+	rets      []retInfo
+	out       map[*ssa.BasicBlock]*State
+	params    map[string]Lin // lengths of slice parameters (for templates)
+	loops     []*ir.Loop
 	failedInv bool
 	// edge: value of another header phi on the edge currently examined (relational templates)
 	edge func(o *ssa.Phi) (AVal, bool)
